@@ -208,9 +208,17 @@ pub fn check_moc(rep: &mut Report, orc: &mut Oracle, m: &Moc) -> bool {
   // 1. cell normal form judged by the verified checker
   let full = format!("{} {}", case, cells_str(&v.cells));
   let ans = orc.ask(&full);
-  if ans != "OK 1" {
+  if !ans.starts_with("OK 1") {
     ok = false;
     rep.violation("cell view is not the normal form of the MOC", &full, &cells_str(&v.cells), &ans, "C05_cell_normal_form_checker_exact");
+  }
+  // 1b. the same list, cell for cell, as the model of next_cell_with_knowledge (proved to be the normal form)
+  if ok {
+    let exp = format!("OK 1 {}", cells_str(&v.cells));
+    if ans != exp {
+      ok = false;
+      rep.violation("cell view differs from the model of the decomposition (Model/CellsSM.v)", &case, &cells_str(&v.cells), &ans, "C05_decomposition_is_normal_form");
+    }
   }
   let mut bad = |what: &str, obs: String, exp: String, thm: &str, rep: &mut Report| {
     rep.violation(what, &case, &obs, &exp, thm);
